@@ -17,6 +17,7 @@ mod rng;
 mod run;
 mod shrink;
 mod spec;
+mod templates;
 mod trace;
 mod world;
 
